@@ -136,7 +136,27 @@ func (op *Op) handlerStatus() *erpc.Status {
 }
 
 // Echo handles a Payload call.
-func (s *Std) Echo(arg *Payload) (*Payload, *erpc.Status) {
+func (s *Std) Echo(arg *Payload) (*Payload, *erpc.Status) { return echoImpl(s, arg) }
+
+// EchoFn is the same handler in the function form (context as an interface argument).
+func EchoFn(ctx erpc.CallCtx, arg *Payload) (*Payload, *erpc.Status) { return echoImpl(ctx, arg) }
+
+// StdMx carries the same handler in the method-expression form: RouteCallFunc((*StdMx).EchoMx).
+type StdMx struct{ erpc.CallCtx }
+
+// EchoMx is registered as a function whose first argument is the controller pointer.
+func (s *StdMx) EchoMx(arg *Payload) (*Payload, *erpc.Status) { return echoImpl(s, arg) }
+
+// okStatus is what a successful handler returns as its status: nil mostly, an explicit status with code OK
+// for some operations (both are "success" for the framework and for every plugin).
+func okStatus(op *Op) *erpc.Status {
+	if op.Idx%5 == 3 {
+		return erpc.NewStatus(erpc.CodeOK, "", nil)
+	}
+	return nil
+}
+
+func echoImpl(s erpc.CallCtx, arg *Payload) (*Payload, *erpc.Status) {
 	e, op := enter(s, "call", arg.Tag, arg.String())
 	defer leave(e, s, "call")
 	if op == nil {
@@ -151,7 +171,7 @@ func (s *Std) Echo(arg *Payload) (*Payload, *erpc.Status) {
 	s.SetMeta("Rtag", arg.Tag)
 	s.SetMeta("Mk-Echo", string(s.PeekMeta(op.MetaK)))
 	s.SetMeta("Veto-Key", string(s.PeekMeta(op.MetaK)))
-	return &Payload{Tag: arg.Tag, Data: Transform(arg.Data) + "|" + string(s.PeekMeta(op.MetaK)), N: arg.N + 1}, nil
+	return &Payload{Tag: arg.Tag, Data: Transform(arg.Data) + "|" + string(s.PeekMeta(op.MetaK)), N: arg.N + 1}, okStatus(op)
 }
 
 func splitPlain(s string) (tag, data string) {
@@ -178,7 +198,7 @@ func (s *Std) Plain(arg *string) (string, *erpc.Status) {
 	s.SetMeta("Rtag", tag)
 	s.SetMeta("Mk-Echo", string(s.PeekMeta(op.MetaK)))
 	s.SetMeta("Veto-Key", string(s.PeekMeta(op.MetaK)))
-	return tag + ";" + Transform(data) + "|" + string(s.PeekMeta(op.MetaK)), nil
+	return tag + ";" + Transform(data) + "|" + string(s.PeekMeta(op.MetaK)), okStatus(op)
 }
 
 // Bytes handles a raw bytes call ("tag;data").
@@ -198,7 +218,13 @@ func (s *Std) Bytes(arg *[]byte) ([]byte, *erpc.Status) {
 	s.SetMeta("Rtag", tag)
 	s.SetMeta("Mk-Echo", string(s.PeekMeta(op.MetaK)))
 	s.SetMeta("Veto-Key", string(s.PeekMeta(op.MetaK)))
-	return []byte(tag + ";" + Transform(data) + "|" + string(s.PeekMeta(op.MetaK))), nil
+	return []byte(tag + ";" + Transform(data) + "|" + string(s.PeekMeta(op.MetaK))), okStatus(op)
+}
+
+// Blank answers with what it was given, possibly nothing at all: "blank:<len>:<bytes>".
+func (s *Std) Blank(arg *[]byte) ([]byte, *erpc.Status) {
+	simrt.YieldQuiet()
+	return []byte(fmt.Sprintf("blank:%d:%s", len(*arg), *arg)), nil
 }
 
 // Note handles a Payload push.
@@ -217,7 +243,13 @@ func (s *StdPush) NotePlain(arg *string) *erpc.Status {
 }
 
 // Routes are the service method names of the standard handlers under the current mapper.
-type Routes struct{ Echo, Plain, Bytes, Note, NotePlain string }
+type Routes struct {
+	Echo, Plain, Bytes, Note, NotePlain string
+	// Blank names a handler that accepts an empty body and answers with what it got
+	Blank string
+	// EchoFn and EchoMx name the Echo handler registered in the two function forms (empty: not registered)
+	EchoFn, EchoMx string
+}
 
 // RegisterStd registers the standard handlers on p.
 func (e *Env) RegisterStd(p erpc.Peer) Routes {
@@ -233,8 +265,15 @@ func (e *Env) RegisterStd(p erpc.Peer) Routes {
 		panic(fmt.Sprintf("route %q not in %v", suffix, list))
 	}
 	r.Echo = find(calls, "echo")
+	if fn := p.RouteCallFunc(EchoFn); fn != "" {
+		r.EchoFn = fn
+	}
+	if mx := p.RouteCallFunc((*StdMx).EchoMx); mx != "" {
+		r.EchoMx = mx
+	}
 	r.Plain = find(calls, "plain")
 	r.Bytes = find(calls, "bytes")
+	r.Blank = find(calls, "blank")
 	if e.Opt.Mapper == "rpc" {
 		r.NotePlain = find(pushes, "noteplain")
 	} else {
@@ -274,6 +313,12 @@ func (e *Env) Issue(sess erpc.Session, rt Routes, op *Op, ch chan erpc.CallCmd) 
 	switch op.Route {
 	case "echo":
 		method, arg, res = rt.Echo, &Payload{Tag: op.Tag, Data: op.Data, N: op.N}, new(Payload)
+		// the same handler is registered in three forms: controller method, function, method expression
+		if k := op.Idx % 3; k == 1 && rt.EchoFn != "" {
+			method = rt.EchoFn
+		} else if k == 2 && rt.EchoMx != "" {
+			method = rt.EchoMx
+		}
 	case "plain":
 		s := op.Tag + ";" + op.Data
 		method, arg, res = rt.Plain, &s, new(string)
